@@ -352,8 +352,8 @@ func exploreMain(p *HistProp, tier string) int {
 				json.Unmarshal(ib, &inf)
 				lb, _ := os.ReadFile(outfile + ".log")
 				results[sh].died = append(results[sh].died, workerFinding{
-					Sig:    p.ID + "|process-died|" + lastDeviation(inf.Replay),
-					What:   fmt.Sprintf("the application process exited (%v) while executing this history; output tail: %.400s", err, tail(string(lb), 400)),
+					Sig:    p.ID + "|process-died|" + deathClass(string(lb), inf.Replay),
+					What:   fmt.Sprintf("the application process exited (%v) while executing this history; output head: %.1200s ... tail: %.400s", err, string(lb), tail(string(lb), 400)),
 					Replay: inf.Replay, Count: 1, Stable: true})
 				startAfter = inf.Idx
 			}
@@ -467,6 +467,30 @@ func tail(s string, n int) string {
 		return s[len(s)-n:]
 	}
 	return s
+}
+
+// deathClass names the cause of a worker death: the first panic / fatal error line with volatile
+// parts (hex, digits) removed; falls back to the last deviating block of the history.
+func deathClass(log string, r HistReplay) string {
+	for _, ln := range strings.Split(log, "\n") {
+		if strings.HasPrefix(ln, "panic:") || strings.HasPrefix(ln, "fatal error:") {
+			var b strings.Builder
+			for _, w := range strings.Fields(ln) {
+				if len(w) > 12 || strings.ContainsAny(w, "0123456789") && len(w) > 3 {
+					break
+				}
+				if b.Len() > 0 {
+					b.WriteByte('-')
+				}
+				b.WriteString(w)
+				if b.Len() > 48 {
+					break
+				}
+			}
+			return b.String()
+		}
+	}
+	return lastDeviation(r)
 }
 
 func lastDeviation(r HistReplay) string {
